@@ -1,6 +1,9 @@
 (* C01 - p-entailment (strict mode).  Property theorems only. *)
 From InfOCF Require Import Core Tol PEnt Form Model Spec Exec ThmP ThmTop.
 From InfOCFProps Require Import Ex.
+From InfOCF Require Import PyLib TieCons TieZ TieP TieTop.
+From InfOCFGen Require Import SrcCond SrcCons SrcInf SrcZ SrcP.
+From Coq Require Import ZArith.
 From Coq Require Import Permutation.
 
 (* the answer is True exactly when the query is trivial or D + (not B|A) has no tolerance partition *)
@@ -28,6 +31,26 @@ Theorem C01_executable_definition : forall n D q P, D <> [] -> part_strict n D =
   infer n SysP false D q = Ans (p_def (fresh D) (worlds n) P q).
 Proof. exact infer_p_def_strict. Qed.
 Print Assumptions C01_executable_definition.
+
+(* SOURCE TIE.  The functions GENERATED on every run from /repo's consistency_sat.py, inference.py and
+   p_entailment.py (coq/gen/Src*.v), run as the manager runs them, answer True exactly when every ranking model of
+   the base accepts the query (non-trivial query), for every signature size, dictionary of conditionals and query;
+   the translated `while True` loop of the consistency test terminates within |D|+2 rounds. *)
+Theorem C01_source_code_is_all_ranking_models : forall n (d:dict Z cond) q u Pc st, dict_values d <> [] -> trivial n q = false ->
+  py_consistency n (S (length d)) (Build_pybase d) u false = Return (PVal Pc, st) ->
+  exists b, py_general_inference n (py_PEntailment_inference n (S (S (length d))) (Build_pybase d) u) false q tt tt = Return b /\
+    (b = true <-> forall kappa, model world (worlds n) kappa (map ac (dict_values d)) -> accepts world (worlds n) kappa (ac q)).
+Proof. exact src_p_strict_rankings. Qed.
+Print Assumptions C01_source_code_is_all_ranking_models.
+Theorem C01_source_code_is_model : forall n (d:dict Z cond) q weakly u1 u2,
+  py_PEntailment_inference n (S (S (length d))) (Build_pybase d) u1 q weakly u2
+  = Return (if weakly then p_ext n (dict_values d) q else p_strict n (dict_values d) q).
+Proof. exact tie_p_inference. Qed.
+Print Assumptions C01_source_code_is_model.
+Theorem C01_source_trivial_queries : forall n impl weakly q u1 u2 b, impl q weakly u2 = Return b ->
+  py_general_inference n impl weakly q u1 u2 = Return (trivial n q || b).
+Proof. exact tie_general_inference. Qed.
+Print Assumptions C01_source_trivial_queries.
 
 Example birds_p : map (infer 4 SysP false birds) [q_fp; q_nfp; q_wp] = [Ans false; Ans true; Ans false]
   /\ trivial 4 q_wp = false /\ part_strict 4 birds <> None.
